@@ -226,7 +226,7 @@ func (g *commonGen) secretFor(w *World, kind string, a int, b int) *SecretRef {
 	case 6: // near miss of the valid one
 		muts := []string{"suffix:x", "chop:1", "upper", "rot:3", "prefix: ", "suffix: "}
 		if kbKind == "recover" || kbKind == "confirm" {
-			muts = []string{fmt.Sprintf("flipbit:%d", g.r.Intn(512)), fmt.Sprintf("trunc:%d", g.r.Intn(64)), "extend:0",
+			muts = []string{fmt.Sprintf("flipbit:%d", g.r.Intn(512)), fmt.Sprintf("trunc:%d", g.r.Intn(64)), fmt.Sprintf("trunc:%d", 60+g.r.Intn(4)), "extend:0",
 				fmt.Sprintf("splice:%d", g.otherAcct(w, a)), fmt.Sprintf("splice2:%d", g.otherAcct(w, a)), "suffix:.", "upper"}
 		}
 		return &SecretRef{Kind: kbKind, A: a, Idx: -1, Mut: muts[g.r.Intn(len(muts))]}
@@ -267,9 +267,19 @@ func (g *commonGen) codeFor(w *World, kind string, a, b int) (*SecretRef, map[st
 		return &SecretRef{Kind: "empty"}, nil
 	}
 	o := g.otherAcct(w, max(a, 0))
-	switch g.r.Intn(11) {
+	switch g.r.Intn(12) {
 	case 0:
 		return &SecretRef{Kind: "empty"}, nil
+	case 11: // the texted code pasted with a stray character, or a recovery code typed into the code field
+		if !isTOTP {
+			if g.r.Bool() {
+				if l := w.KB.list("sms", -1); len(l) > 0 {
+					return &SecretRef{Kind: "literal", Lit: l[len(l)-1].Value + []string{" ", "\n", ".", " ?"}[g.r.Intn(4)]}, nil
+				}
+			}
+			return &SecretRef{Kind: "recovery", A: a, Idx: -1 - g.r.Intn(3)}, map[string]string{"as": "code"}
+		}
+		return &SecretRef{Kind: "totp", A: a, Mut: "suffix: "}, nil
 	case 10: // the right TOTP code wrapped in white space
 		return &SecretRef{Kind: "totp", A: a, Mut: []string{"suffix: ", "prefix: ", "suffix:\t", "suffix:\n", "prefix:\u00a0"}[g.r.Intn(5)]}, nil
 	case 1:
@@ -541,7 +551,7 @@ func (g *commonGen) fill(w *World, kind string, b int) Step {
 		case 3:
 			st.Str["nostate"] = "1"
 		case 4:
-			st.Str["uid"] = []string{"a;;b", "a;b", ";;", ";", "oauth2;;google;;7", "x;y", "x;;y", "üñí", "7"}[g.r.Intn(9)]
+			st.Str["uid"] = []string{"a;;b", "a;b", ";;", ";", "oauth2;;google;;7", "x;y", "x;;y", "üñí", "7", "u1abc", "U1ABC", "U1abc", "u1abc", "U1ABC"}[g.r.Intn(14)]
 		case 5: // state of another browser
 			ob := g.r.Intn(len(w.Browsers))
 			st.Sec = &SecretRef{Kind: "literal", Lit: w.Browsers[ob].Session["oauth2_state"]}
